@@ -23,7 +23,8 @@ func Root() string {
 // Run collects what one invocation of one check observed and turns it into the evidence file,
 // the VIOLATION / KNOWN-FINDING lines and the exit code.
 type Run struct {
-	Prop  string
+	Prop  string // check id (evidence file name); C20B / C20G are the two halves of property C20
+	As    string // property id used in VIOLATION / KNOWN-FINDING lines
 	Tier  string
 	Seed  int64
 	Level string
@@ -66,6 +67,10 @@ func NewRun(prop, level string, args []string) *Run {
 	r := &Run{Prop: prop, Level: level, Tier: "quick", Seed: 1, start: time.Now(),
 		nontrivial: map[uint64]struct{}{}, counters: map[string]int64{}, extra: map[string]any{},
 		inconcl: map[string]int64{}, kfPrinted: map[string]bool{}, maxViol: 5}
+	r.As = prop
+	if len(prop) == 4 && (prop[3] == 'B' || prop[3] == 'G') {
+		r.As = prop[:3]
+	}
 	if s := os.Getenv("VERIF_SEED"); s != "" {
 		if v, err := strconv.ParseInt(s, 10, 64); err == nil {
 			r.Seed = v
@@ -221,7 +226,7 @@ func (r *Run) Violation(sub string, idx int, what string, detail any) {
 	name := fmt.Sprintf("%s-%016x.json", r.Prop, Hash64(r.Prop, sub, strconv.Itoa(idx), strconv.FormatInt(r.Seed, 10), what))
 	path := filepath.Join(dir, name)
 	_ = os.WriteFile(path, buf, 0o666)
-	fmt.Printf("VIOLATION property=%s replay=%s\n", r.Prop, path)
+	fmt.Printf("VIOLATION property=%s replay=%s\n", r.As, path)
 	fmt.Printf("  what: %s (sub=%s case=%d seed=%d)\n", truncate(what, 600), sub, idx, r.Seed)
 }
 
@@ -243,7 +248,7 @@ func (r *Run) Canary(id string, fails func() (bool, string)) {
 		return
 	}
 	f := r.findings.Get(id)
-	if f.Property != r.Prop {
+	if f.Property != r.Prop && f.Property != r.As {
 		return
 	}
 	bad, desc := fails()
@@ -252,7 +257,7 @@ func (r *Run) Canary(id string, fails func() (bool, string)) {
 		r.mu.Lock()
 		if !r.kfPrinted[id] {
 			r.kfPrinted[id] = true
-			fmt.Printf("KNOWN-FINDING: property=%s %s: %s [%s]\n", r.Prop, id, f.What, truncate(desc, 300))
+			fmt.Printf("KNOWN-FINDING: property=%s %s: %s [%s]\n", r.As, id, f.What, truncate(desc, 300))
 		}
 		r.mu.Unlock()
 		r.Count("known_findings_reproduced", 1)
@@ -325,7 +330,7 @@ func (r *Run) Finish() {
 	}
 	if len(blind) > 0 && r.Replay == nil {
 		for _, b := range blind {
-			fmt.Printf("INCONCLUSIVE property=%s reason=%s\n", r.Prop, b)
+			fmt.Printf("INCONCLUSIVE property=%s reason=%s\n", r.As, b)
 		}
 		os.Exit(4)
 	}
